@@ -1,7 +1,7 @@
 """Logging shims for the concurrent receiver (taskiq/receiver/receiver.py), installed from the driver process.
 
 Nothing in /repo is edited: `taskiq.receiver.receiver.asyncio` is replaced by a module object that forwards to
-the real asyncio except for Queue / wait / create_task; the two semaphores and the finish event are logging
+the real asyncio except for Queue / wait (task creation is observed by the loop's task factory, whichever API is used); the two semaphores and the finish event are logging
 subclasses; prefetcher / runner / callback are wrapped as *instance attributes* only to tag the running task
 with a role; a task factory on the driver's loop logs every task created while a message's callback task is running
 (`bg.new i` / `bg.done i`: work spawned for message i).  Every shim appends `[t_us, tag, a, b]` to one global raw log; `to_lts` maps the raw log to
@@ -88,9 +88,9 @@ def install(rmod, log, ident):
             log.add("waited", len(p))
         return d, p
 
-    def create_task(coro, **kw):
-        r = role()
-        t = asyncio.create_task(coro, **kw)
+    def note_created(t, r):
+        """called by the task factory for a task created while the prefetcher (r == "pf") or the runner (r == "rn") is the
+        running task - whatever API made it (asyncio.create_task, loop.create_task, ensure_future)"""
         if r == "pf":
             log.add("la.new")
         elif r == "rn":
@@ -102,7 +102,6 @@ def install(rmod, log, ident):
             got = LAST_GET.pop("id", None)
             t._vexpect = got
             log.add("spawn", made_for if made_for is not None else got)
-        return t
 
     class Shim(types.ModuleType):
         def __getattr__(self, n):
@@ -122,13 +121,15 @@ def install(rmod, log, ident):
             t._vmsg = owner
             log.add("bg.new", owner)
             t.add_done_callback(lambda _t: log.add("bg.done", owner))
+        r = getattr(cur, "_vrole", None) if cur is not None else None
+        if r in ("pf", "rn"):
+            note_created(t, r)
         return t
 
     log.loop.set_task_factory(task_factory)
     shim = Shim("asyncio_logging_shim")
     shim.Queue = LQueue
     shim.wait = wait
-    shim.create_task = create_task
     rmod.asyncio = shim
     return shim
 
